@@ -40,6 +40,7 @@ def pre_state(arm, cfg, align=False):
         'vbar': r.vbar.value, 'mvbar': r.mvbar, 'hvbar': r.hvbar, 'align': bool(align),
         'irq_vec': cfg.get('impdef_irq_vector', 24), 'fiq_vec': cfg.get('impdef_fiq_vector', 28),
         'vbar_reset': int(cfg.get('reset_values', {}).get('VBAR', '0'), 0),
+        'impdef_reset': cfg.get('impdef_reset_vector', 0) if cfg.get('has_imp_def_reset_vector') else None,
     }
 
 
@@ -104,6 +105,8 @@ def entry(kind, s):
 
     if kind == 'reset':
         base = 0xFFFF0000 if s['V'] else (s['vbar_reset'] if sec else 0)
+        if s.get('impdef_reset') is not None:
+            base = s['impdef_reset']             # IMPLEMENTATION DEFINED reset vector (configuration item)
         d = finish(SVC, 1, 1, 1, s['TE'], s['EE'], None, None, base & ~1, 0 if sec else ns, None)
         return d
     if kind == 'und':
